@@ -2,7 +2,7 @@
 # usage: tools/verify_seed.sh <Cxx> <A|B>   - confirms a sub-agent's seeded change in a scratch worktree and stores it under /verif/seeded/
 # checks: demo passes on clean HEAD, fails with the patch, pinned suite unchanged with the patch.
 P=$1; X=$2
-SRC=/tmp/agents/out_$P/$X
+SRC=${SEED_SRC:-/tmp/agents/out_$P/$X}
 WT=/tmp/seed_wt
 OUT=/verif/seeded/${P}_$X
 [ -f $SRC/patch.diff ] || { echo "no patch for $P $X"; exit 2; }
